@@ -1,7 +1,7 @@
 (* drv_C07.ml — runs the extracted LsModel (state machine of LeastSquares<T>) on a case file.
    case line:   ls <f32|f64> <ctor> <op> ...
      ctor : C0 | C1 k | C2 k n
-     op   : E k | D n | R i m v1..vm y w | P k a11..akk b1..bk | A k a11..akk | XC | XS | XW | V var
+     op   : E k | D n | R i m v1..vm y w | Q i m v1..vm y (row and y only, weight untouched) | P k a11..akk b1..bk | A k a11..akk | XC | XS | XW | V var
    output line: one token group per op that returns something:
      D -> "f0"/"f1" ; XC/XS/XW -> "x k v1..vk" ; V -> "m k v11..vkk" ; first undefined op -> "undef" and stop
    followed by " | res <max contract residual of the oracle realisations> <conv>"  (model side only).
@@ -59,6 +59,9 @@ let () =
           | "D" -> OpSetDataSize (nat_of_int (nexti ()))
           | "R" -> let i = nexti () in let m = nexti () in let row = take m in
             let y = rd (next ()) in let w = rd (next ()) in OpSetRow (nat_of_int i, row, y, w)
+          | "Q" -> let i = nexti () in let m = nexti () in let row = take m in      (* J(i,:) and Y(i) only: W_ untouched *)
+            let y = rd (next ()) in
+            let w = (try Stdlib.List.nth (!st).ls_W i with _ -> 0.0) in OpSetRow (nat_of_int i, row, y, w)
           | "P" -> let k = nexti () in let a = Stdlib.List.init k (fun _ -> take k) in let b = take k in OpSetPrecond (a, b)
           | "A" -> let k = nexti () in let a = Stdlib.List.init k (fun _ -> take k) in OpSetPrecondA a
           | "XC" -> OpEstimateChol | "XS" -> OpEstimateSVD | "XW" -> OpWeightedEstimate
